@@ -88,6 +88,25 @@ CHECKS["C11"] = ("model_checking",
                  "by TLC event by event.",
                  "Trusted: TLC, Json, the rig. Real schedules are stress-sampled (write delays widen the races).", "4/C11")
 
+
+_OF_NOTE = ("Trusted: my transcription of the OpenFlow 1.3.5 / nicira-ext.h / ONF bundle layouts into OFWire.tla (every disagreement with the code was "
+            "triaged; one byte -- the unused table byte of the plain resubmit action -- is taken from the implementation), TLC, Json module, the "
+            "reflective interpreter's name-to-constructor mapping. Enumeration is by families (one dimension exhaustive, the others minimal) with "
+            "position-tagged and boundary values, not the full product; bundle-add properties are not generated (no public way to set their data).")
+for _pid, _tech, _text in (
+    ("C01", "TLC-generated construction histories (OFGen.tla families incl. maximal shapes and top-down histories) replayed on the real API; TLC judge of framing (version, type code, header length = bytes = Len())",
+     "OFBuilder.tla states which abstract message every sequence of constructor / field / adder calls denotes; TLC enumerates the families (every action kind and ordered pair in every action container, every match-field constructor and pairs, instruction sequences x all 5 flow-mod commands, group-mod commands x types x buckets, all simple / multipart / vendor / bundle messages, bundle-add wrapping every kind, payload sizes, maximal shapes near 65 535 bytes, and top-down histories where a container grows after it was attached); the reflective harness executes them and TLC judges version = 4, type code = TypeCode(kind), header length = bytes produced = Len()."),
+    ("C02", "TLC-generated construction histories replayed on the real API; TLC runs the independent TLV walker Walk* of OFWire.tla on the bytes the real encoder produced",
+     "WalkMsg of OFWire.tla knows only declared lengths, 8-byte alignment, zero padding, legal type / subtype codes and registry widths (match, OXM, instructions, standard and Nicira actions incl. learn specs, NAT presence bitmap, conntrack nesting, buckets, hello elements, TLV maps, bundle-add with embedded message); it must consume every generated message exactly."),
+    ("C03", "TLC-generated construction histories replayed on the real API; TLC judges bytes = Enc(tree) of OFWire.tla byte for byte (independent statement of the layouts)",
+     "Enc of OFWire.tla is the OpenFlow 1.3 / Nicira layout written from the specifications; the tree of every scenario is built by OFBuilder.tla from the same constructor arguments and setter calls; position-tagged values make a swapped, shifted or truncated field visible; boundary patterns (zero, ones, top bit, low bit) sweep every field; every optional part (all 64 NAT combinations, masks on/off, conntrack zone immediate / range) and append / prepend orders are enumerated."),
+    ("C06", "TLC-generated construction histories replayed on the real API; TLC judges Len() = bytes = size assigned by the grammar, and ordered disjoint occurrence of the children's standalone encodings inside the container",
+     "For every observed object (children standalone, then the container) Len() must equal the bytes produced and the size Enc(tree) assigns (so a consistently truncating size function is seen), and the standalone encodings of the watched children must occur whole, disjoint and in order inside the parent. Packet-header kinds of protocol/ are covered by the C09 corpus."),
+    ("C13", "TLC-generated construction histories (incl. top-down histories and bundle / vendor wrappers) with interleaved repeated Len()/MarshalBinary() observers replayed on the real API; TLC judges that all answers agree",
+     "Observer actions leave the abstract store unchanged: every scenario sizes and encodes each watched child, then the container twice (len, marshal, len, marshal), top-down histories four times; every pair of answers for the same (observer, object) must be equal, and (with C03) equal to the specification's value."),
+):
+    CHECKS[_pid] = ("model_checking", _tech, _text, _OF_NOTE, "4/" + _pid)
+
 NOT_YET = {
 }
 
